@@ -200,7 +200,10 @@ G_Term(cls, m, n, b, seed, depth, mode) ==
             \* base batch bb, repeats reps with bb * reps = b (elementwise); extra leading repeat dim when seed % 3 = 2
             LET reps0 == [i \in 1..Len(b) |-> IF (seed + i) % 2 = 0 THEN b[i] ELSE 1]
                 bb == [i \in 1..Len(b) |-> b[i] \div reps0[i]]
-            IN Op_BatchRepeat(sub(m, n, bb, seed + 3), reps0)
+                base == sub(m, n, bb, seed + 3)
+            \* (a BatchRepeat directly around a BatchRepeat is a construction the class itself declares unsupported: the inner repeat
+            \*  is then replaced by a leaf)
+            IN Op_BatchRepeat(IF base.cls = "BatchRepeat" THEN G_Child(m, n, bb, seed + 4, 0, mode) ELSE base, reps0)
        [] cls = "Cat" ->
             LET r == Len(b) + 2
                 \* 0: rows, 1: cols, 2: first batch dim (always a batch dim when there are three of them: that is where the
